@@ -363,6 +363,15 @@ def make_system(rng, kind):
         eqs.append((a, b + rng.choice([1, -2, params[1] + 1, params[0], 2 * params[1],
                                        params[0] - params[1]])))
         expect = "raise"
+    elif kind == "dup-then-contradict":
+        # SEVERAL redundant equations, a consistent one ahead of an inconsistent one
+        a, b = rng.choice(eqs)
+        eqs.append(rng.choice([(a, b), (2 * a, 2 * b), (0 * a, 0 * b) if False else (a + 1, b + 1)]))
+        if rng.random() < 0.5:
+            eqs.append(rng.choice(eqs[:-1]))
+        c, d = rng.choice(eqs)
+        eqs.append((c, d + rng.choice([1, -2, params[1] + 1, params[0], 2 * params[1]])))
+        expect = "raise"
     elif kind == "under":
         if n >= 2:
             eqs.pop(rng.randrange(len(eqs)))
@@ -494,7 +503,8 @@ def workload(ctx):
             ctx.sample("non-affine", str(e2))
         for names in (["x", "y"], None, [], frozenset()):
             ctx.run("C15.collect", (e2, names, False))
-    kinds = ["plain", "plain", "dup", "scaled-dup", "contradict", "under", "nonintegral", "missing"]
+    kinds = ["plain", "plain", "dup", "scaled-dup", "contradict", "dup-then-contradict", "under",
+             "nonintegral", "missing"]
     for i in range(ctx.per_shard(ctx.pick(2500, 50000))):
         kind = rng.choice(kinds)
         names, eqs, expect = make_system(rng, kind)
@@ -508,6 +518,7 @@ def workload(ctx):
         rhs = [[rng.randint(-4, 4) for _ in range(2)] for _ in m]
         ctx.run("C15.gauss", (m, rhs))
     ctx.floor("collector_calls", 10000)
+    ctx.floor("system:dup-then-contradict", 100)
     ctx.floor("collector_retargeted", 5000)
     ctx.floor("nonaffine_inputs", 2000)
     ctx.floor("solutions_verified", 500)
